@@ -258,9 +258,12 @@ O_<TN_, TA_, TH_, TS_...>::deepForwardActive(Control& control,
 	HFSM2_ASSERT(control._core.registry.isActive(HEAD_ID));
 
 	const ProngCBits requested = orthoRequested(static_cast<const Control&>(control));
-	HFSM2_ASSERT(!!requested);
 
-	SubStates::wideForwardActive(control, request, requested);
+	if (requested)
+		SubStates::wideForwardActive(control, request, requested);
+	else
+		// no prong addressed: this region itself is the destination
+		deepRequest					(control, request);
 }
 
 // - - - - - - - - - - - - - - - - - - - - - - - - - - - - - - - - - - - - - - -
